@@ -1748,7 +1748,7 @@ pub fn gen_program(rng: &mut Rng, cfg: &GenCfg) -> GenProgram {
     let mut features = g.features;
     if g.rng.chance(cfg.ast_mutation_pct, 100) {
         let n = g.rng.range(1, 2);
-        if mutate_ast(g.rng, &mut file, n) > 0 {
+        if mutate_ast(g.rng, &mut file, n, cfg.scoped_mut) > 0 {
             features.push("ast_mutation");
         }
     }
@@ -1951,7 +1951,10 @@ fn random_untyped(rng: &mut Rng) -> GExpr {
 }
 
 /// Replace `count` random expressions of the file. Returns how many were replaced.
-pub fn mutate_ast(rng: &mut Rng, file: &mut GFile, count: usize) -> usize {
+/// `fresh_nodes`: whether `(node)` may be among the replacements. Programs meant to be
+/// order-insensitive must not get one: it would re-bind variables to new graph nodes behind the
+/// generator's bookkeeping of which edges exist, and put node numbers into formatted strings.
+pub fn mutate_ast(rng: &mut Rng, file: &mut GFile, count: usize, fresh_nodes: bool) -> usize {
     let mut total = 0usize;
     for st in file.stanzas_mut() {
         visit_exprs_mut(&mut st.stmts, &mut |_| total += 1);
@@ -1962,7 +1965,12 @@ pub fn mutate_ast(rng: &mut Rng, file: &mut GFile, count: usize) -> usize {
     let mut done = 0;
     for _ in 0..count {
         let target = rng.below(total);
-        let replacement = random_untyped(rng);
+        let mut replacement = random_untyped(rng);
+        if !fresh_nodes {
+            while matches!(&replacement, GExpr::Call(f, _) if f == "node") {
+                replacement = random_untyped(rng);
+            }
+        }
         let mut k = 0usize;
         let mut repl = Some(replacement);
         for st in file.stanzas_mut() {
